@@ -13,10 +13,12 @@ MANIFEST = dict(
     text="Logs.tla models a forest of scopes each optionally given its own logger and/or trace id and a name from a "
          "family incl. the empty name and names containing %-formatting characters; loggers, trace ids and identifiers "
          "are named by the scope that introduced them. Every context log call (4 levels x {no args, matching positional args, a single "
-         "mapping argument for %(name)s, literal % without args} x optional exception) and the scopes' own Started/finished lines are actions whose "
-         "observation is the line that reached a handler. TLC checks LoggerRule, TraceInherited and LineSane over all "
+         "mapping argument for %(name)s, literal % without args} x optional exception) is an action whose "
+         "observation is the line that reached a handler (entering a scope is observed through a probe line logged right "
+         "after; the library's own lifecycle lines are not part of the property and are ignored). TLC checks LoggerRule, TraceInherited and LineSane over all "
          "trees/positions within the bounds, in the creating task and a spawned task; every edge is replayed into the "
-         "real library with capturing handlers on the supplied loggers and on the root logger.",
+         "real library (and random programs of 4 tasks / 10 scopes are validated by a generated trace module) with "
+         "capturing handlers on the supplied loggers and on the root logger.",
     technique="TLA+ spec + TLC exhaustive model checking; edge-complete graph replay into the implementation with "
               "capturing log handlers",
     design="5/C19")
